@@ -387,9 +387,11 @@ class ModelPoint:
     __hash__ = None
 
     def x(self):
+        _coord_axioms(self.d)
         return SxInt.unsigned(_X(_d256(self.d)))
 
     def y(self):
+        _coord_axioms(self.d)
         return SxInt.unsigned(_Y(_d256(self.d)))
 
     def to_affine(self):
@@ -403,6 +405,24 @@ class ModelPoint:
 
     def to_bytes(self, encoding="raw"):
         return sec_of(self.d, encoding)
+
+
+def _coord_axioms(d):
+    """facts about affine coordinates that code comparing them relies on: two non-zero group elements have the same x
+    exactly when they are equal or opposite; the same (x, y) exactly when they are equal; y is never 0 (odd group
+    order), so P and -P differ in y parity"""
+    c = C()
+    seen = c.env.setdefault("coord_points", [])
+    dv = _d256(d)
+    if any(dv.eq(e) for e in seen):
+        return
+    nn = z3.BitVecVal(N, 256)
+    for e in seen:
+        same_x = _X(dv) == _X(e)
+        opp = z3.ZeroExt(1, dv) + z3.ZeroExt(1, e) == z3.ZeroExt(1, nn)
+        c.add(same_x == z3.Or(dv == e, opp))
+        c.add(z3.And(same_x, _Y(dv) == _Y(e)) == (dv == e))
+    seen.append(dv)
 
 
 def _is_real_infinity(o):
